@@ -283,6 +283,17 @@ func (c *FnCtx) pureResult(st *State, callee *ssa.Function, args []SV, rt types.
 	if !ok {
 		return c.defaultResult(st, rt, callee.Name())
 	}
+	// case conversion of a literal is computed (so that ToLower("x-mpegURL") is the literal it is)
+	if len(args) == 1 && (callee.String() == "strings.ToLower" || callee.String() == "strings.ToUpper") {
+		if a, isSc := args[0].(Sc); isSc {
+			if txt, known := c.strLitText[a.T.S]; known {
+				if callee.String() == "strings.ToLower" {
+					return Sc{c.strLit(strings.ToLower(txt))}
+				}
+				return Sc{c.strLit(strings.ToUpper(txt))}
+			}
+		}
+	}
 	mk := func(t types.Type, suffix string) SV {
 		if s := c.scalarSort(t); s != "" {
 			tm := c.uf("ext$"+callee.String()+suffix, s, ts...)
